@@ -21,7 +21,7 @@ M=[
  ("C03","obs-membership","node/pkg/processor/observation.go","	_, ok := gs.KeyIndex(their_addr)\n	if !ok {","	_, ok := gs.KeyIndex(their_addr)\n	if !ok && len(m.Hash) == 0 {"),
  ("C04","hash-once","node/pkg/vaa/structs.go","	hash := crypto.Keccak256Hash(crypto.Keccak256Hash(v.signingBody()).Bytes())","	hash := crypto.Keccak256Hash(v.signingBody())"),
  ("C04","swap-chains","node/pkg/vaa/structs.go","	MustWrite(buf, binary.BigEndian, v.EmitterChain)\n	MustWrite(buf, binary.BigEndian, v.TargetChain)\n	buf.Write(v.EmitterAddress[:])\n	MustWrite(buf, binary.BigEndian, v.Sequence)","	MustWrite(buf, binary.BigEndian, v.TargetChain)\n	MustWrite(buf, binary.BigEndian, v.EmitterChain)\n	buf.Write(v.EmitterAddress[:])\n	MustWrite(buf, binary.BigEndian, v.Sequence)"),
- ("C05","floor","node/pkg/vaa/structs.go","	if len(data) < minVAALength {","	if len(data) < 5 {"),
+ ("C05","floor","node/pkg/vaa/structs.go","	if len(data) < minVAALength {","	if len(data) < 0 {"),
  ("C05","payload-cap","node/pkg/vaa/structs.go","	payload := make([]byte, reader.Len())","	payload := make([]byte, 4096)"),
  ("C06","bound","node/pkg/vaa/structs.go","		if int(sig.Index) >= len(addresses) {\n			return false\n		}","		if int(sig.Index) > len(addresses) {\n			return false\n		}"),
  ("C06","order","node/pkg/vaa/structs.go","		if int(sig.Index) <= last_index {","		if int(sig.Index) < last_index-1 {"),
